@@ -65,9 +65,7 @@ func hashStr(s string) uint64 {
 func sched(c *cf.Case, r *cf.Rng) {
 	c.Sched.Seed = r.U64()
 	switch r.Intn(10) {
-	case 0:
-		c.Sched.Mode = "canonical"
-	case 1, 2, 3:
+	case 0, 1, 2, 3:
 		c.Sched.Mode = "coin"
 	default:
 		c.Sched.Mode = "yield"
